@@ -335,3 +335,18 @@ func normDigits(s string) string {
 }
 
 func hex64(h uint64) string { return fmt.Sprintf("%016x", h) }
+
+// countChans adds the channel / sleep counters of one run (only present when
+// the code under test uses channels, time.Sleep or sync.Map at all).
+func countChans(sum *Summary, s simrt.Stats) {
+	if s.ChanOps > 0 {
+		sum.Counters["channel operations of the code under test under simulator control"] += s.ChanOps
+		sum.Counters["channel operations that parked their task"] += s.ChanParks
+		sum.Counters["rendezvous on unbuffered channels"] += s.Rendezvous
+		sum.Counters["selects whose first case was chosen by the tape"] += s.SelectChoices
+	}
+	if s.Sleeps > 0 {
+		sum.Counters["time.Sleep calls in simulated time"] += s.Sleeps
+		sum.Counters["clock jumps to the earliest sleeper"] += s.ClockJumps
+	}
+}
